@@ -694,7 +694,7 @@ Section Simple.
     parse_events st (rline (break_line b)) = (set_ev_breaks st (ev_breaks st ++ [b]), Ok).
   Proof.
     unfold break_ok. intros H. apply andb_true_iff in H. destruct H as [H H3].
-    apply andb_true_iff in H. destruct H as [H1 H2]. apply f64_eqb_eq in H3.
+    apply andb_true_iff in H. destruct H as [H1 H2]. apply negb_true_iff in H3.
     rewrite render_break.
     set (line := [50] ++ comma :: fmt_f64 (bp_start b) ++ comma :: fmt_f64 (bp_end b)).
     assert (Hsafe : forallb safec line = true).
